@@ -986,14 +986,21 @@ func (w *world) confirmed(win *window, owner, n int, a oid.Address) bool {
 // could have been mistaken for: the kinds of the not confirmed nodes of the list.
 func (w *world) shape(win *window, owner int, a oid.Address, list []int, shortfall int) string {
 	m, u, nf := 0, 0, 0
+	uAny := false
 	seen := map[int]bool{}
 	for _, n := range list {
-		if seen[n] || n == owner || w.confirmed(win, owner, n, a) {
+		if seen[n] || n == owner {
 			continue
 		}
 		seen[n] = true
 		if win.notFound[n] {
-			nf++
+			nf++ // even if a replication made it a confirmed holder afterwards
+		}
+		if win.unreach[n] {
+			uAny = true // even if it answered differently on another call
+		}
+		if w.confirmed(win, owner, n, a) {
+			continue
 		}
 		switch {
 		case win.maint[n]:
@@ -1016,7 +1023,7 @@ func (w *world) shape(win *window, owner int, a oid.Address, list []int, shortfa
 	if nf > 0 {
 		fl = append(fl, "a listed node had no copy")
 	}
-	if u > 0 && m >= shortfall {
+	if uAny && m >= shortfall {
 		fl = append(fl, "a listed node was unreachable")
 	}
 	if win.replFail {
